@@ -91,7 +91,7 @@ fn parse_attr<T: ParseAttribute>(attr: &syn::Attribute, target: &mut T) -> Resul
         syn::Meta::List(data) => {
             // Parse the list before creating the accumulator: a syntax error inside the
             // attribute must be returned, not turn into an unfinished (panicking) accumulator.
-            let items = NestedMeta::parse_meta_list(data.tokens.clone())?;
+            let items = NestedMeta::parse_meta_list_args(data)?;
             let mut errors = Error::accumulator();
 
             for item in items {
